@@ -836,6 +836,21 @@ class NumpyStub:
             return Sym(x.t, x.kind, False, x.nan)
         return x
 
+    def m_round(self, a, decimals=0, **k):
+        if decimals != 0:
+            raise Untranslatable("round(decimals != 0)")
+        if a.dtype.kind != "f":
+            return a.copy()
+
+        def f(e):
+            if isinstance(e, Sym):
+                n = z3.ToInt(e.t + z3.RealVal("1/2"))
+                tie = z3.ToReal(n) == e.t + z3.RealVal("1/2")
+                r = z3.If(z3.And(tie, n % 2 == 1), n - 1, n)      # numpy rounds half to even
+                return mk(simp(z3.ToReal(r)), "float", True, e.nan)
+            return float(_np.round(e))
+        return self.mk_arr([f(e) for e in a.elems()], a.shape, a.dtype)
+
     def m_fill(self, a, v):
         vv = cast_elem(v, a.dtype)
         for p in a.pos:
@@ -1116,6 +1131,10 @@ class NumpyStub:
                 return tarr.arange(self, vals[0], dtype)
             if len(vals) == 1:
                 vals = [self.concretize_extent(vals[0], "arange length")]
+            elif len(vals) == 2 and getattr(self.I, "extent_cap", None) is not None and all(kind_of(v) != "float" for v in vals):
+                n = self.concretize_extent(binop("-", vals[1], vals[0]), "arange length")
+                n = max(n, 0)
+                return self.mk_arr([raw(binop("+", vals[0], i)) for i in range(n)], (n,), _np.int64)
             else:
                 raise Untranslatable("np.arange(start, stop) with symbolic bounds")
         r = _np.arange(*vals, dtype=dtype)
